@@ -15,11 +15,11 @@ This private submodule is *not* intended for importation by downstream callers.
 # ....................{ IMPORTS                            }....................
 from beartype.roar import BeartypeClawImportConfException
 from beartype._conf.confmain import BeartypeConf
-from functools import partial
+from contextlib import contextmanager
 from pprint import pformat
+from threading import local
 from typing import (
-    Callable,
-    Dict,
+    Iterator,
     Optional,
 )
 
@@ -258,26 +258,81 @@ def cache_from_source_beartype(
     return cache_from_source_original(*args, **kwargs)
 
 
-def make_cache_from_source_beartype(conf: BeartypeConf) -> Callable[..., str]:
+def cache_from_source_thread_local(*args, **kwargs) -> str:
     '''
-    Beartype-specific variant of the
-    :func:`importlib._bootstrap_external.cache_from_source` function specific to
-    the passed beartype configuration, memoized for efficiency.
+    Thread-safe dispatcher to be monkey-patched over the
+    :func:`importlib._bootstrap_external.cache_from_source` function, deferring
+    to either:
+
+    * If the current thread is currently importing a module hooked by a beartype
+      import hook (i.e., is inside a :func:`.cache_from_source_beartyped` context
+      passed a beartype configuration), the beartype-specific
+      :func:`.cache_from_source_beartype` variant for that configuration.
+    * Else, the original :func:`importlib._bootstrap_external.cache_from_source`
+      function.
+
+    Temporarily replacing that process-global function by the beartype-specific
+    variant for the duration of one hooked import (as prior versions did) is
+    *not* thread-safe: a second thread concurrently importing an unhooked module
+    inside that window would cache that module under the beartype-specific
+    marker (and a hooked module whose window was closed by another thread would
+    be cached under the unmarked filename). This dispatcher is instead
+    idempotently installed once and decides per thread.
     '''
 
-    cache_from_source_beartype_conf = _CONF_TO_CACHE_FROM_SOURCE.get(conf)
+    # Beartype configuration of the hooked module currently being imported by
+    # the current thread if any *OR* "None" otherwise.
+    conf = getattr(_THREAD_LOCAL, 'beartype_conf', None)
 
-    if cache_from_source_beartype_conf is None:
-        cache_from_source_beartype_conf = _CONF_TO_CACHE_FROM_SOURCE[conf] = (
-            partial(cache_from_source_beartype, beartype_conf=conf))
+    # If this thread is *NOT* importing a hooked module, defer to the original.
+    if conf is None:
+        return cache_from_source_original(*args, **kwargs)
+    # Else, this thread is importing a hooked module.
 
-    return cache_from_source_beartype_conf
+    # Defer to the beartype-specific variant for this configuration.
+    return cache_from_source_beartype(*args, beartype_conf=conf, **kwargs)
+
+
+@contextmanager
+def cache_from_source_beartyped(conf: Optional[BeartypeConf]) -> Iterator[None]:
+    '''
+    Context manager declaring the current thread to be importing either a module
+    hooked under the passed beartype configuration *or* (if :data:`None`) an
+    unhooked module for the duration of this context, restoring the prior
+    declaration on exit.
+
+    Contexts nest: an unhooked module imported by the current thread *while*
+    that thread is importing a hooked module (e.g., a module lazily imported by
+    the import hook itself) is correctly cached as unhooked.
+    '''
+
+    # Avoid circular import dependencies.
+    from importlib import _bootstrap_external
+
+    # Prior declaration of the current thread if any.
+    conf_old = getattr(_THREAD_LOCAL, 'beartype_conf', None)
+
+    # Declare the current thread to be importing this kind of module.
+    _THREAD_LOCAL.beartype_conf = conf
+
+    # Idempotently install the thread-safe dispatcher defined above.
+    if _bootstrap_external.cache_from_source is not (
+        cache_from_source_thread_local):
+        _bootstrap_external.cache_from_source = cache_from_source_thread_local  # type: ignore[assignment]
+
+    # Defer to the body of the caller-defined "with" block.
+    try:
+        yield
+    # Restore the prior declaration of the current thread.
+    finally:
+        _THREAD_LOCAL.beartype_conf = conf_old
 
 # ....................{ PRIVATE                            }....................
-_CONF_TO_CACHE_FROM_SOURCE: Dict[BeartypeConf, Callable[..., str]] = {}
+_THREAD_LOCAL = local()
 '''
-Dictionary mapping from each beartype configuration to the variant of the
-:func:`.cache_from_source_beartype` function specific to that configuration.
+Thread-local storage whose ``beartype_conf`` attribute (if defined) is either
+the beartype configuration of the hooked module currently being imported by the
+current thread *or* :data:`None` if that thread is importing an unhooked module.
 '''
 
 
